@@ -31,7 +31,8 @@ Rules == /\ ph = "rules"
                  \/ (k \in {"none", "get"} /\ s \in {"exact:Get", "exact:Do"})
               /\ \E k2 \in Rule2Kinds, first \in BOOLEAN :
                    /\ (k2 = "none" => ~first)
-                   /\ (k2 # "none" => (k \in {"none", "get"} /\ s \in {"exact:Get", "exact:GetBook", "nomatch"}))
+                   /\ (k2 # "none" => (k \in {"none", "get", "var-nested"} /\ s \in {"exact:Get", "exact:GetBook", "nomatch"}))
+                   /\ (k = "var-nested" /\ k2 # "none" => (k2 = "dblstar-on-D" /\ s = "exact:Get"))
                    /\ cfg' = [cfg EXCEPT !.rule = k, !.sel = s, !.rule2 = k2, !.rule2first = first]
          /\ ph' = "done"
 Done == ph = "done" /\ UNCHANGED vars
